@@ -346,6 +346,11 @@ func (st *State) heapTypingAt(name, sym, frontier string) {
 	if !ok || !needsInv(t) {
 		return
 	}
+	// only scalar-valued heaps: quantified invariants over datatype-valued (slice, interface, string) selects made
+	// z3 diverge; values of those types get their invariant when they are loaded
+	if s := sortOf(t); s != "Int" {
+		return
+	}
 	if frontier == "" {
 		if f, ok := st.heaps["$alloc"]; ok {
 			frontier = f
